@@ -682,6 +682,7 @@ func c13Server() *Scenario {
 				id      string
 				result  any
 				errData any
+				rawData string // error data as raw JSON text placed in Error.Data directly
 				isErr   bool
 				msg     string
 			}
@@ -692,6 +693,8 @@ func c13Server() *Scenario {
 				items = append(items, item{id: ids[(i+3)%len(ids)], isErr: true, errData: v, msg: "m\n\"" + string(c13Runes[i%len(c13Runes)])})
 				for _, w := range wsVariants(normJSON(v)) {
 					items = append(items, item{id: "1", result: json.RawMessage(w)})
+					// the same raw pre-encoded text as the data of an error object built by hand (a relayed upstream error)
+					items = append(items, item{id: "2", isErr: true, rawData: w, msg: "relayed"})
 				}
 			}
 			for start := 0; start < len(items); start += 150 {
@@ -710,6 +713,9 @@ func c13Server() *Scenario {
 					pipe = p
 					hd := func(ctx context.Context, req *jrpc2.Request) (any, error) {
 						it := chunk[idx]
+						if it.isErr && it.rawData != "" {
+							return nil, &jrpc2.Error{Code: 7, Message: it.msg, Data: json.RawMessage(it.rawData)}
+						}
 						if it.isErr {
 							e := &jrpc2.Error{Code: 7, Message: it.msg}
 							return nil, e.WithData(it.errData)
@@ -748,6 +754,9 @@ func c13Server() *Scenario {
 						eo := map[string]any{"code": 7, "message": it.msg}
 						if it.errData != nil {
 							eo["data"] = it.errData
+						}
+						if it.rawData != "" {
+							eo["data"] = json.RawMessage(it.rawData)
 						}
 						want.ErrObj = normJSON(eo)
 					} else if rm, ok := it.result.(json.RawMessage); ok {
